@@ -964,7 +964,14 @@ adoption** (`HOpOK` violated: `dest = dir ++ "-merge"`; a real caller CAN do thi
 files overwrite the rewritten files of the same names while marker and hint file stay: the adopting
 `Open` installs the ORIGINAL files `0 … count-1` as "merged" files and deletes the originals from
 `count` up to the marker: acknowledged data is lost without any error.  The same happens in Go
-(`utils.CopyDir` overwrites `000000000.data …` in `<dir>-merge`). -/
+(`utils.CopyDir` overwrites `000000000.data …` in `<dir>-merge`).  Re-evaluated after repair 88d026d
+(`Backup dest` removes a merge directory `dest ++ "-merge"` first): here that is `"d-merge-merge"`, which does
+not exist, so nothing is removed and every output below is as before — the point stays excluded.
+
+**E3' — `Backup` into the data directory itself** (`HOpOK` violated: `dest = dir`).  Since repair 88d026d this
+removes the database's OWN finished merge directory (`dir ++ "-merge"` is "the merge directory next to the
+destination"; model and Go agree).  Harmless for the mapping — the merge result is merely discarded and the next
+`Open` scans — but `HInv`'s clause about the merge directory would need its own case, so the point stays excluded. -/
 
 private def cfgS : Cfg := { fileSize := 60, sync := 0, bps := 0, idx := 0, io := 0, shards := 1 }
 private def e3 : List HOp :=
@@ -982,6 +989,16 @@ private def e3 : List HOp :=
 #guard (nFiles (hrun "d" (openDB St.init "d" cfgS).1 (e3.take 7)).1 "d-merge") == some [0, 1, 2, 3, 4, 5]
 -- file 4 (the only copy of `d ↦ 5`) has been deleted by the adoption
 #guard (nFiles (hrun "d" (openDB St.init "d" cfgS).1 (e3.take 9)).1 "d") == some [0, 1, 2, 3, 5]
+
+private def e3' : List HOp :=
+  [.a (.put (kb "a") (kb "1")), .a (.put (kb "b") (kb "2")), .a (.put (kb "a") (kb "3")), .a (.put (kb "c") (kb "4")),
+   .a (.put (kb "d") (kb "5")), .merge [0, 1, 2], .backup "d", .restart cfgS,
+   .a (.get (kb "a")), .a (.get (kb "b")), .a (.get (kb "c")), .a (.get (kb "d"))]
+-- E3': the finished merge directory is there after `Merge`, gone after `Backup "d"`; nothing is lost
+#guard (nFiles (hrun "d" (openDB St.init "d" cfgS).1 (e3'.take 6)).1 "d-merge") == some [0, 1, 2, 3]
+#guard (nFiles (hrun "d" (openDB St.init "d" cfgS).1 (e3'.take 7)).1 "d-merge") == none
+#guard (hrun "d" (openDB St.init "d" cfgS).1 e3').2.map showRes
+  = ["ok", "ok", "ok", "ok", "ok", "ok", "ok", "ok", "ok", "val:[51]", "val:[50]", "val:[52]", "val:[53]"]
 
 /-! (E1 and E2 as lists:) -/
 
